@@ -210,4 +210,21 @@ WITNESSES = [
     dict(id="c19-ok-cached-alias-read", prop="C19", file=D, expect=None,
          old="            tensor_sym = obj.symmetry()\n",
          new="            cached_sym = obj.symmetry()\n            tensor_sym = cached_sym\n            scratch = dict(cached_sym)\n            scratch.clear()\n"),
+    # any() over a set written as a flag loop with break
+    dict(id="c19-ok-any-as-flag-loop", prop="C19", file=SP, expect=None,
+         old="        if any(s.spin for s in term_indices):\n            raise ValueError(\"The function assumes",
+         new="        has_spin = False\n        for s in term_indices:\n            if s.spin:\n                has_spin = True\n"
+             "                break\n        if has_spin:\n            raise ValueError(\"The function assumes"),
+    # the index strings of the overlap root selected by a conditional expression instead of a table
+    dict(id="c19-ok-isr-cond-expr", prop="C19", file=S, expect=None,
+         edits=[("        s_indices = {\n            'bra': \",\".join([indices, idx_pre]),\n            'ket': \",\".join([idx_pre, indices])\n        }\n", ""),
+                ("                              indices=s_indices[braket]) *",
+                 "                              indices=(f\"{indices},{idx_pre}\" if braket == 'bra' else f\"{idx_pre},{indices}\")) *")]),
+    # the config loader as a module-level helper
+    dict(id="c19-ok-config-helper", prop="C19", file=T, expect=None,
+         edits=[("tensor_names = TensorNames._from_config()", "def _load_configured_names() -> TensorNames:\n    return TensorNames._from_config()\n\n\ntensor_names = _load_configured_names()")]),
+    # De Morgan on a name test
+    dict(id="c19-ok-name-demorgan", prop="C19", file=E, expect=None,
+         old="        if self.name != tensor_names.fock:  # no fock matrix\n            return pack_result(self.sympy, {}, target)\n        p, q = self.idx\n        # build a delta",
+         new="        if not (self.name == tensor_names.fock):  # no fock matrix\n            return pack_result(self.sympy, {}, target)\n        p, q = self.idx\n        # build a delta"),
 ]
